@@ -383,6 +383,7 @@ fn strat_tag(s: &Strat) -> &'static str {
         Strat::PathNoMmap => "path",
         Strat::PathMmap => "mmap",
         Strat::PathFifo => "fifo",
+        Strat::PathHeapLimit { .. } => "path-heap-limit",
     }
 }
 
@@ -1166,6 +1167,10 @@ fn gen_strats(t: &mut Tape, big: bool) -> Vec<Strat> {
     if t.chance(if big { 2 } else { 1 }, 3) {
         v.push(Strat::PathNoMmap);
         v.push(Strat::PathMmap);
+    }
+    if t.chance(1, 4) {
+        // generous: the limit bounds the transcoded text (up to 3 bytes per encoded byte)
+        v.push(Strat::PathHeapLimit { limit: 8 * 1024 * 1024 });
     }
     v
 }
